@@ -154,9 +154,11 @@ func ReadFromWebVTT(i io.Reader) (o *Subtitles, err error) {
 
 		switch {
 		// Comment
-		case blockName != webvttBlockNameText && strings.HasPrefix(line, "NOTE "):
+		case blockName != webvttBlockNameText && (line == "NOTE" || strings.HasPrefix(line, "NOTE ")):
 			blockName = webvttBlockNameComment
-			comments = append(comments, strings.TrimPrefix(line, "NOTE "))
+			if line != "NOTE" {
+				comments = append(comments, strings.TrimPrefix(line, "NOTE "))
+			}
 		// Empty line
 		case len(line) == 0:
 			// Reset block name, if we are not in the middle of CSS.
